@@ -422,7 +422,7 @@ def _sweep_cases():
 
 
 def streams(tier):
-    n = 250 if tier == "quick" else 4000
+    n = 800 if tier == "quick" else 6000
     return [Stream("rfc-name-x-kind", "fixed", 0, 4, _sweep_cases, True, False), Stream("api-programs", "hyp", n, 16, cases)]
 
 
